@@ -24,40 +24,40 @@ import engine as _engine
 
 
 def _c11_fsm(ctx):
-    fsm.rule_gkf(ctx)
-    fsm2.rule_gkf_escape(ctx)
-    fsm2.rule_xsd_gkf(ctx)
-    fsm2.rule_dataparser(ctx)
-    fsm2.rule_lnar(ctx)
+    ctx.run_rule(fsm.rule_gkf)
+    ctx.run_rule(fsm2.rule_gkf_escape)
+    ctx.run_rule(fsm2.rule_xsd_gkf)
+    ctx.run_rule(fsm2.rule_dataparser)
+    ctx.run_rule(fsm2.rule_lnar)
 
 
 def _c11_rest(ctx):
-    attr.rule_attr_scratch(ctx)
-    attr.rule_numconv(ctx)
-    attr.rule_main_funnel(ctx)
-    lin.rule_wrap_w2(ctx)
-    lin.rule_bnd(ctx)
-    pair.rule_newdelete(ctx)
-    sib.rule_finish_siblings(ctx)
-    rec.rule_recognisers(ctx)
-    scratch_rule(ctx)
-    fin.rule_fin_c11(ctx)
-    pair.rule_no_use_after_handover(ctx)
+    ctx.run_rule(attr.rule_attr_scratch)
+    ctx.run_rule(attr.rule_numconv)
+    ctx.run_rule(attr.rule_main_funnel)
+    ctx.run_rule(lin.rule_wrap_w2)
+    ctx.run_rule(lin.rule_bnd)
+    ctx.run_rule(pair.rule_newdelete)
+    ctx.run_rule(sib.rule_finish_siblings)
+    ctx.run_rule(rec.rule_recognisers)
+    ctx.run_rule(scratch_rule)
+    ctx.run_rule(fin.rule_fin_c11)
+    ctx.run_rule(pair.rule_no_use_after_handover)
 
 
 def _c04(ctx):
-    lazy.rule_lazy_solvers(ctx)
-    lazy.rule_lazy_adj(ctx)
-    lazy.rule_lazy_cascade(ctx)
-    lazy.rule_lazy_chain(ctx)
-    lazy.rule_lazy_caches(ctx)
-    lazy.rule_lazy_preserve(ctx)
-    lazy.rule_lazy_latch(ctx)
-    scratch_rule(ctx)
-    pair.rule_shadow(ctx)
-    pair.rule_newdelete(ctx)
-    pair.rule_ownership_handover(ctx)
-    pair.rule_no_use_after_handover(ctx)
+    ctx.run_rule(lazy.rule_lazy_solvers)
+    ctx.run_rule(lazy.rule_lazy_adj)
+    ctx.run_rule(lazy.rule_lazy_cascade)
+    ctx.run_rule(lazy.rule_lazy_chain)
+    ctx.run_rule(lazy.rule_lazy_caches)
+    ctx.run_rule(lazy.rule_lazy_preserve)
+    ctx.run_rule(lazy.rule_lazy_latch)
+    ctx.run_rule(scratch_rule)
+    ctx.run_rule(pair.rule_shadow)
+    ctx.run_rule(pair.rule_newdelete)
+    ctx.run_rule(pair.rule_ownership_handover)
+    ctx.run_rule(pair.rule_no_use_after_handover)
 
 
 def _filtered(rule, keep):
@@ -100,7 +100,7 @@ _SCRATCH_HOME = [
     ("local::GKFparser", ("C10", "C11")),
     ("DataParser", ("C19", "C11")),
     ("g3::", ("C19",)),
-    ("local::LocalNetwork", ("C14", "C04", "C01")),
+    ("local::LocalNetwork", ("C14", "C04", "C01", "C05")),
     ("Homogenization", ("C10", "C01", "C04")),
     ("Envelope", ("C16", "C04", "C20", "C01")),
     ("SparseMatrix", ("C16",)),
@@ -193,7 +193,7 @@ PROPS = {
                        "the flagged unknown's point with a reason. removed() restarts the pipeline (CASCADE) and the handler's queries cannot rethrow (R-ERR rethrow). That the flagged set has a full-rank complement is not decided.",
     },
     "C05": {
-        "rules": [lin.rule_bnd, lin.rule_lin, lin.rule_wrap_w1, lin.rule_unit, lin.rule_vis_local, sib.rule_index_alloc_order, sib.rule_rhs_every_path],
+        "rules": [lin.rule_bnd, lin.rule_lin, lin.rule_wrap_w1, lin.rule_unit, lin.rule_vis_local, sib.rule_index_alloc_order, sib.rule_rhs_every_path, scratch_rule],
         "explanation": "Shape clauses of the linearisation decided on the AST/CFG of LocalLinearization and its sibling visitors: "
                        "R-BND bounded, paired coeff[]/index[] writes and max_size == array bound == reservation factor; R-LIN the "
                        "coefficients of every two/three-point observation type, normalised to formal sums of signed atoms, sum to zero "
